@@ -101,7 +101,11 @@ func (t *Tree) feedLeaf(leaf validator, jsonLex lexeme.LexEvent, indexOfLeaf int
 	if done { // validation of node completed
 		parent := leaf.parent()
 		leaf.setParent(nil) // remove the pointer to simplify garbage collection in the future
-		if parent == nil {
+		if parent == nil || t.isLeaf(parent) {
+			// The root validator is done, or another alternative of the same
+			// value ("or" rule, several types) has already stepped back to this
+			// parent: it must get the following lexemes once, not once per
+			// alternative which accepted the value.
 			delete(t.leaves, indexOfLeaf)
 		} else {
 			t.leaves[indexOfLeaf] = parent // step back to parent
@@ -121,6 +125,15 @@ func (t *Tree) feedLeaf(leaf validator, jsonLex lexeme.LexEvent, indexOfLeaf int
 	}
 
 	return nil
+}
+
+func (t *Tree) isLeaf(v validator) bool {
+	for _, leaf := range t.leaves {
+		if leaf == v {
+			return true
+		}
+	}
+	return false
 }
 
 func (t *Tree) addLeaf(v validator) {
